@@ -250,8 +250,10 @@ PROPS = {
         ],
         "monitor_props": ["C11"],
         "campaigns": {
-            "quick": [{"name": "infl-random", "args": ["cases=2500", "maxev=12"]}],
-            "thorough": [{"name": "infl-random", "args": ["cases=80000", "maxev=16"]}],
+            "quick": [{"name": "infl-random", "args": ["cases=2500", "maxev=12"]},
+                      {"name": "infl-colliding", "args": ["cases=800", "maxev=14", "collide=1"]}],
+            "thorough": [{"name": "infl-random", "args": ["cases=80000", "maxev=16"]},
+                         {"name": "infl-colliding", "args": ["cases=20000", "maxev=20", "collide=1"]}],
         },
         "nontrivial": r"ev=insert",
         "rule": "same scripts as C06; non-trivial = contains an explicit insert; the monitor checks that after insert(k,v) the "
